@@ -6,12 +6,12 @@ package main
 // go/ast statements.
 
 import (
+	"sort"
 	"fmt"
 	"go/constant"
 	"go/token"
 	"go/types"
 	"os"
-	"sort"
 	"strconv"
 	"strings"
 
@@ -19,6 +19,9 @@ import (
 )
 
 type rwRT struct {
+	importKeysDone              bool
+	importKeysCo, importKeysSeq []string
+
 	// switchBreakDepthBlind: set by switchBreaksRewritten when the break replacement asks nothing about nesting
 	switchBreakDepthBlind bool
 
@@ -700,4 +703,90 @@ func isRecursiveAstWalk(fn *ssa.Function) bool {
 		}
 	}
 	return reachesFn(fn, fn.Name(), 2)
+}
+
+// importNameKeys: where rewriteFile keeps the names the API package and package seq are imported under — found by
+// evaluating rewriteFile with the import-name resolution answered by two marker strings and reading off the stores
+// that carry them (a field of its own, or a field of a struct stored as a whole), not by field names.
+func (r *rwRT) importNameKeys() (co, seq []string) {
+	if r.importKeysDone {
+		return r.importKeysCo, r.importKeysSeq
+	}
+	r.importKeysDone = true
+	defer func() {
+		if recover() != nil {
+			r.importKeysCo, r.importKeysSeq = nil, nil
+		}
+	}()
+	fn := r.w.MethodOpt(pathRw, "rewriter", "rewriteFile")
+	if fn == nil {
+		return nil, nil
+	}
+	in := r.interp(rwConfig{root: fn, boundaries: map[string]bool{"rewriteFile": false, "attachComment": true, "rewriteForRanges": true, "rewriteIter": true, "mkYieldFromRewriter": true, "mkYieldRewriter": true, "collectYieldFunc": true}})
+	in.MaxDepth, in.MaxVisits = 10, 12
+	in.Inline = func(f *ssa.Function) bool {
+		return inRw(f) && !reachesCursorMutator(f, 3) && !reachesFn(f, "rewriteYieldFunc", 4)
+	}
+	in.OnCall = wrapOnCall(in.OnCall, func(cc *CallCtx) []Answer {
+		if cc.Fn != nil && cc.Fn.Name() == "ImportName" && strings.Contains(fnPkgPath(cc.Fn), "go-imports") && len(cc.Args) >= 2 {
+			if p, ok := asString(cc.Args[1]); ok {
+				if strings.HasSuffix(p, "/seq") {
+					return []Answer{{Ret: []AV{mkString("§seq")}, NoEvent: true}}
+				}
+				return []Answer{{Ret: []AV{mkString("§co")}, NoEvent: true}}
+			}
+		}
+		return nil
+	})
+	args := []AV{Sym{Name: "r", NN: true}, Sym{Name: "f", NN: true}, Sym{Name: "printer", NN: true}}
+	if n := len(fn.Params); n < len(args) {
+		args = args[:n]
+	}
+	seen := map[string]bool{}
+	note := func(key string, v AV) {
+		if s, ok := asString(v); ok && !seen[key] && strings.HasPrefix(key, "r.") {
+			switch s {
+			case "§co":
+				seen[key] = true
+				r.importKeysCo = append(r.importKeysCo, key)
+			case "§seq":
+				seen[key] = true
+				r.importKeysSeq = append(r.importKeysSeq, key)
+			}
+		}
+	}
+	for _, o := range in.Run(nil, fn, args, nil) {
+		for _, e := range o.St.Events {
+			if e.Kind != "store" || len(e.Args) != 1 {
+				continue
+			}
+			key := epochRe.ReplaceAllString(e.Target, "")
+			note(key, e.Args[0])
+			if sv, ok := e.Args[0].(StructV); ok {
+				for f, v := range sv.Fields {
+					note(key+"."+f, v)
+				}
+			}
+		}
+	}
+	sort.Strings(r.importKeysCo)
+	sort.Strings(r.importKeysSeq)
+	return r.importKeysCo, r.importKeysSeq
+}
+
+// setImportNames configures the import names on the rewriter `r` (and on an embedding / referring `r.rewriter`).
+func (r *rwRT) setImportNames(in *Interp, co, seq string) {
+	cks, sks := r.importNameKeys()
+	set := func(keys []string, legacy, val string) {
+		if val == "" {
+			return
+		}
+		keys = append(append([]string{}, keys...), "r."+legacy)
+		for _, k := range keys {
+			in.Fields[k] = mkString(val)
+			in.Fields["r.rewriter."+strings.TrimPrefix(k, "r.")] = mkString(val)
+		}
+	}
+	set(cks, "coImportedName", co)
+	set(sks, "seqImportedName", seq)
 }
